@@ -1,3 +1,148 @@
 import PeptVerif.Model.Combinatoric
+import PeptVerif.Spec.Combinatoric
+import PeptVerif.Lemmas.Combinatoric
+/-!
+# C19 - combinatorial expansions are exactly the combinatorics of the modified residues
+
+Model: `Pept.permutations / product / combinations / combinationsWithReplacement` (Model/Combinatoric.lean),
+which follow proforma_parser.py: serialise start and end, pop the mods of a copy, put the internal mods back,
+`split` into one-residue pieces, enumerate with `itertools`, re-parse `start + pieces + end`.
+Every `theorem` below is a proof obligation. `n = a.seq.length`, `k = sizeOf a size` (`None` means `n`).
+-/
 namespace Pept.C19
+open Pept
+
+/-- example annotation: `{Glycan:Hex}<13C>[Acetyl]-PE[3]T[1.0][Phospho]^2-[Amide]/2` -/
+def exA : Annotation :=
+  { seq := "PET".toList
+    labile := some [⟨.str "Glycan:Hex".toList, 1⟩]
+    isotope := some [⟨.str "13C".toList, 1⟩]
+    nterm := some [⟨.str "Acetyl".toList, 1⟩]
+    cterm := some [⟨.str "Amide".toList, 1⟩]
+    internal := some [(1, [⟨.int 3, 1⟩]), (2, [⟨.flt "1.0".toList, 1⟩, ⟨.str "Phospho".toList, 2⟩])]
+    charge := some 2 }
+
+/-! ## the four counting formulas (for every list and every size) -/
+
+/-- `itertools.permutations`: n!/(n-k)! results -/
+theorem length_perms {α : Type} (k : Nat) (l : List α) : (permsK k l).length = l.length.descFactorial k :=
+  length_permsK k l
+
+/-- `itertools.combinations`: C(n,k) results -/
+theorem length_combs {α : Type} (k : Nat) (l : List α) : (combsK k l).length = l.length.choose k :=
+  length_combsK k l
+
+/-- `itertools.combinations_with_replacement`: C(n+k-1,k) results -/
+theorem length_cwr {α : Type} (k : Nat) (l : List α) : (cwrK k l).length = (l.length + k - 1).choose k :=
+  length_cwrK k l
+
+/-- `itertools.product`: n^k results -/
+theorem length_prod {α : Type} (k : Nat) (l : List α) : (prodK k l).length = l.length ^ k :=
+  length_prodK k l
+
+example : (permsK 2 [1, 2, 3]).length = 6 ∧ (combsK 2 [1, 2, 3]).length = 3 ∧ (cwrK 2 [1, 2, 3]).length = 6 ∧
+    (prodK 2 [1, 2, 3]).length = 9 := by decide
+
+/-- one component per residue -/
+theorem length_components (a : Annotation) : (components a).length = a.seq.length := by
+  simp [components, split, afterPop]
+
+/-- `permutations(size)` returns n!/(n-k)! annotations -/
+theorem count_permutations (a : Annotation) (size : Option Nat) :
+    (permutations a size).length = a.seq.length.descFactorial (sizeOf a size) := by
+  simp [permutations, length_permsK, length_components]
+
+/-- `combinations(size)` returns C(n,k) annotations -/
+theorem count_combinations (a : Annotation) (size : Option Nat) :
+    (combinations a size).length = a.seq.length.choose (sizeOf a size) := by
+  simp [combinations, length_combsK, length_components]
+
+/-- `combinations_with_replacement(size)` returns C(n+k-1,k) annotations -/
+theorem count_combinations_with_replacement (a : Annotation) (size : Option Nat) :
+    (combinationsWithReplacement a size).length = (a.seq.length + sizeOf a size - 1).choose (sizeOf a size) := by
+  simp [combinationsWithReplacement, length_cwrK, length_components]
+
+/-- `product(repeat)` returns n^k annotations -/
+theorem count_product (a : Annotation) (rep : Option Nat) :
+    (product a rep).length = a.seq.length ^ (sizeOf a rep) := by
+  simp [product, length_prodK, length_components]
+
+/-- `size=None` means the full length: n! permutations -/
+theorem count_permutations_none (a : Annotation) : (permutations a none).length = a.seq.length.factorial := by
+  rw [count_permutations]; simp [sizeOf, Nat.descFactorial_self]
+
+example : (permutations exA none).length = 6 ∧ (combinations exA (some 2)).length = 3 := by decide
+
+/-! ## sizes above n give an empty list for the non-repeating forms -/
+
+theorem permutations_empty_of_gt (a : Annotation) (k : Nat) (h : a.seq.length < k) : permutations a (some k) = [] := by
+  apply List.eq_nil_of_length_eq_zero
+  rw [count_permutations]
+  exact (Nat.descFactorial_eq_zero_iff_lt).2 h
+
+theorem combinations_empty_of_gt (a : Annotation) (k : Nat) (h : a.seq.length < k) : combinations a (some k) = [] := by
+  apply List.eq_nil_of_length_eq_zero
+  rw [count_combinations]
+  exact Nat.choose_eq_zero_of_lt h
+
+example : exA.seq.length < 4 ∧ permutations exA (some 4) = [] ∧ combinations exA (some 5) = [] := by decide
+
+/-! ## elementwise specification
+
+The model goes through `split`, `slice`, the dictionary of popped mods and the joined text; the specification
+is direct: enumerate the list `residues a` of (residue, own mods) pairs and `wrap` each selection in the
+globals of `a`. -/
+
+theorem permutations_spec (a : Annotation) (size : Option Nat) :
+    permutations a size = (permsK (sizeOf a size) (residues a)).map (wrap a) := by
+  simp [permutations, components_eq, permsK_map, assemble_singletons, Function.comp_def]
+
+theorem product_spec (a : Annotation) (rep : Option Nat) :
+    product a rep = (prodK (sizeOf a rep) (residues a)).map (wrap a) := by
+  simp [product, components_eq, prodK_map, assemble_singletons, Function.comp_def]
+
+theorem combinations_spec (a : Annotation) (size : Option Nat) :
+    combinations a size = (combsK (sizeOf a size) (residues a)).map (wrap a) := by
+  simp [combinations, components_eq, combsK_map, assemble_singletons, Function.comp_def]
+
+theorem combinations_with_replacement_spec (a : Annotation) (size : Option Nat) :
+    combinationsWithReplacement a size = (cwrK (sizeOf a size) (residues a)).map (wrap a) := by
+  simp [combinationsWithReplacement, components_eq, cwrK_map, assemble_singletons, Function.comp_def]
+
+/-- the i-th entry of `residues a` is the i-th residue with the mods it carries -/
+theorem residues_getElem (a : Annotation) (i : Nat) (h : i < (residues a).length) :
+    (residues a)[i] = (a.seq[i]'(by simpa [residues] using h), modsAt a i) := by
+  simp [residues, modsAt, List.getElem_zipIdx]
+
+/-- a result's sequence is the selected residues in order -/
+theorem wrap_seq (a : Annotation) (sel : List (Char × List Mod)) : (wrap a sel).seq = sel.map (·.1) := rfl
+
+/-- position `i` of a result carries exactly the mods of the i-th selected residue (multipliers as written) -/
+theorem wrap_mods (a : Annotation) (sel : List (Char × List Mod)) (i : Nat) (h : i < sel.length) :
+    modsAt (wrap a sel) i = sel[i].2.map normMult := modsAt_wrap a sel i h
+
+/-- on the domain (multipliers ≥ 1) a residue's mods come through unchanged -/
+theorem wrap_mods_unchanged (a : Annotation) (sel : List (Char × List Mod)) (i : Nat) (h : i < sel.length)
+    (hm : sel[i].2.all (fun m => decide (m.mult ≥ 1)) = true) :
+    modsAt (wrap a sel) i = sel[i].2 := by
+  rw [modsAt_wrap a sel i h, map_normMult_id _ hm]
+
+/-- labile, global, terminal and charge annotations of every result are those of the input -/
+theorem wrap_globals_unchanged (a : Annotation) (sel : List (Char × List Mod)) (h : expandDomain a = true) :
+    (wrap a sel).labile = a.labile ∧ (wrap a sel).static = a.static ∧ (wrap a sel).isotope = a.isotope ∧
+    (wrap a sel).unknown = a.unknown ∧ (wrap a sel).nterm = a.nterm ∧ (wrap a sel).cterm = a.cterm ∧
+    (wrap a sel).charge = a.charge ∧ (wrap a sel).adducts = a.adducts ∧ (wrap a sel).intervals = none := by
+  simp only [expandDomain, Bool.and_eq_true] at h
+  obtain ⟨⟨⟨⟨⟨⟨⟨⟨⟨h1, h2⟩, h3⟩, h4⟩, h5⟩, h6⟩, h7⟩, h8⟩, _⟩, _⟩ := h
+  have hc : a.charge ≠ some 0 := by
+    intro hc
+    simp [okCharge, hc] at h8
+  simp only [wrap]
+  refine ⟨normList_id _ h3, normList_id _ h2, normList_id _ h1, normList_id _ h4, normList_id _ h5, normList_id _ h6,
+    normCharge_id _ hc, normList_id _ h7, trivial⟩
+
+example : expandDomain exA = true := by decide
+
+example : (combinations exA (some 2)).map (·.seq) = ["PE".toList, "PT".toList, "ET".toList] := by decide
+
 end Pept.C19
